@@ -164,6 +164,45 @@ impl<const W: usize> Write for PrefixWriter<W> {
     fn flush(&mut self) -> io::Result<()> { Ok(()) }
 }
 
+/// Like PrefixWriter, but one solver-chosen call may accept ZERO bytes (the
+/// "zero-then-progress" pattern of a congested transport). std's write_all
+/// turns Ok(0) into Err(WriteZero); a hand-written retry loop must not report
+/// success with bytes missing.
+pub struct ZeroPrefixWriter<const W: usize> {
+    pub out: [u8; W],
+    pub out_len: usize,
+    pub calls: usize,
+    pub zero_at: usize,
+    pub zero_seen: bool,
+}
+
+impl<const W: usize> ZeroPrefixWriter<W> {
+    pub fn new(zero_at: usize) -> Self { ZeroPrefixWriter { out: [0; W], out_len: 0, calls: 0, zero_at, zero_seen: false } }
+}
+
+impl<const W: usize> Read for ZeroPrefixWriter<W> {
+    fn read(&mut self, _buf: &mut [u8]) -> io::Result<usize> { Ok(0) }
+}
+
+impl<const W: usize> Write for ZeroPrefixWriter<W> {
+    fn write(&mut self, buf: &[u8]) -> io::Result<usize> {
+        let c = self.calls;
+        self.calls += 1;
+        if buf.len() == 0 { return Ok(0); }
+        if c == self.zero_at { self.zero_seen = true; return Ok(0); }
+        let k: usize = kani::any();
+        kani::assume(k >= 1 && k <= buf.len());
+        let mut i = 0;
+        while i < k {
+            if self.out_len < W { self.out[self.out_len] = buf[i]; }
+            self.out_len += 1;
+            i += 1;
+        }
+        Ok(k)
+    }
+    fn flush(&mut self) -> io::Result<()> { Ok(()) }
+}
+
 /// A writer that accepts a solver-chosen non-empty prefix per call and fails
 /// with BrokenPipe at call index `fail_at`. Counts only.
 pub struct FailWriter {
